@@ -52,10 +52,12 @@ example : depends (.waitany 1 1 [{ kind := .COMM_WAIT, aid := 1, comm := 7, mbox
 Full-strength statement of the property (DESIGN §8 C39):
   theorem indep_commute : ∀ s t₁ t₂, aid t₁ ≠ aid t₂ → enabled s t₁ → enabled s t₂ → depends t₁ t₂ = some false →
       enabled (exec s t₁) t₂ ∧ enabled (exec s t₂) t₁ ∧ exec (exec s t₁) t₂ ≈ exec (exec s t₂) t₁
-It is FALSE on the current code for BARRIER_ASYNC_LOCK × BARRIER_ASYNC_LOCK (`barrier_lock_lock_counterexample`) and for
-COMM_TEST × COMM_ASYNC_SEND/RECV on an unpaired comm (`comm_send_test_counterexample`).
-Proved below group by group: mutex (all 25 pairs of kinds), semaphore (all 9 pairs).  Not proved: barrier
-(counterexample), comm, actor, condvar groups and cross-group pairs.
+It WAS false for BARRIER_ASYNC_LOCK × BARRIER_ASYNC_LOCK and for COMM_TEST × COMM_ASYNC_SEND/RECV on an unpaired comm;
+both cells are repaired (`barrier_lock_lock_counterexample`, `comm_send_test_counterexample` are now regression
+statements: the OLD cell / arm, kept as literals, fails on the witness and the current `depends` answers "dependent").
+Proved below group by group: mutex (all 25 pairs of kinds), semaphore (all 9 pairs), barrier (all 4 pairs), and the
+repaired cell COMM_TEST × COMM_ASYNC_SEND on the mailbox mini-model (`comm_send_test_commute`).  Not proved: the other
+comm cells, actor, condvar groups and cross-group pairs: the statement over all groups remains `_partial`.
 `≈` is `State.equiv` (pointwise equality: the transitions of these groups allocate no identifiers). -/
 open Sem
 
@@ -139,42 +141,129 @@ theorem sem_inv_preserved_all (s : State) (t : Base) (h : isSemKind t.kind = tru
   · simp only [hx, upd_same]; exact sem_inv_preserved _ _ _ (hinv _)
   · simp only [upd_other _ _ _ _ hx]; exact hinv m
 
-/-- **Barrier group: the cell BARRIER_ASYNC_LOCK × BARRIER_ASYNC_LOCK does not commute.**  Barrier of 2 with one actor
-(3) already waiting; actors 1 and 2 both about to lock.  The table says ALWAYS_INDEP (and `BarrierTransition::depends`
-"LOCK indep LOCK: requests are not ordered in a barrier"), but whoever locks first trips the barrier together with 3 and
-the other one is left waiting: the two orders end in different states (and differ in which BARRIER_WAIT is enabled). -/
+/-- **Barrier group** — every pair of BARRIER_{ASYNC_LOCK,WAIT} transitions of different actors, on the same or on
+different barriers, any expected count (0 included), any waiting / granted lists.  Since the repair of the cell
+BARRIER_ASYNC_LOCK × BARRIER_ASYNC_LOCK the only pair declared independent on one barrier is WAIT × WAIT. -/
+theorem indep_commute_bar (s : State) (t1 t2 : Base)
+    (h1 : isBarKind t1.kind = true) (h2 : isBarKind t2.kind = true) (ha : t1.aid ≠ t2.aid)
+    (e1 : enabled s t1 = true) (e2 : enabled s t2 = true)
+    (hd : depends (.base t1) (.base t2) = some false) :
+    enabled (exec s t1) t2 = true ∧ enabled (exec s t2) t1 = true ∧
+    (exec (exec s t1) t2).equiv (exec (exec s t2) t1) := by
+  rw [enabled_bar _ _ h1] at e1
+  rw [enabled_bar _ _ h2] at e2
+  rw [enabled_bar _ _ h2, enabled_bar _ _ h1]
+  by_cases hm : t1.bar = t2.bar
+  · have hi := barIndepSame_of_depends t1 t2 h1 h2 ha hm hd
+    rw [hm] at e1
+    obtain ⟨c1, c2, c3⟩ := bar_obj_commute (s.bar t2.bar) t1.kind t2.kind t1.aid t2.aid ha h1 h2 hi e1 e2
+    simp only [exec_bar _ _ h1, exec_bar _ _ h2, hm, upd_same]
+    refine ⟨c1, c2, fun _ => rfl, fun _ => rfl, ?_, fun _ => rfl, fun _ => rfl⟩
+    intro m
+    by_cases hx : m = t2.bar <;> simp [upd, hx, c3]
+  · have hm' : ¬ t2.bar = t1.bar := fun e => hm e.symm
+    simp only [exec_bar _ _ h1, exec_bar _ _ h2, upd_other _ _ _ _ hm, upd_other _ _ _ _ hm']
+    refine ⟨e2, e1, fun _ => rfl, fun _ => rfl, ?_, fun _ => rfl, fun _ => rfl⟩
+    intro m
+    by_cases hx1 : m = t1.bar <;> by_cases hx2 : m = t2.bar <;> simp [upd, hx1, hx2, hm, hm']
+
+/-- **Regression (repaired defect `barrier-lock-lock-declared-independent`).**  Barrier of 2 with one actor (3) already
+waiting; actors 1 and 2 both about to lock: whoever locks first trips the barrier together with 3 and the other one is
+left waiting, so the two orders end in different states (and differ in which BARRIER_WAIT is enabled).  The OLD table
+held `ALWAYS_INDEP` in the cell BARRIER_ASYNC_LOCK × BARRIER_ASYNC_LOCK (literal below: that arm answers "independent"
+on this pair); the table as compiled now selects `EVAL_BARRIER_DEPENDS` and `depends` answers "dependent". -/
 theorem barrier_lock_lock_counterexample :
     let s : State := { mutex := fun _ => ⟨none, []⟩, sem := fun _ => ⟨0, [], []⟩,
                        bar := fun _ => { expected := 2, waiting := [3], granted := [] }, ret := fun _ => 0, dead := fun _ => false }
     let t1 : Base := { kind := .BARRIER_ASYNC_LOCK, aid := 1, bar := 0 }
     let t2 : Base := { kind := .BARRIER_ASYNC_LOCK, aid := 2, bar := 0 }
     let w1 : Base := { kind := .BARRIER_WAIT, aid := 1, bar := 0 }
-    depends (.base t1) (.base t2) = some false ∧ enabled s t1 = true ∧ enabled s t2 = true ∧
+    evalAction .ALWAYS_INDEP t1 t2 = some false ∧                  -- the old cell
+    lut .BARRIER_ASYNC_LOCK .BARRIER_ASYNC_LOCK = .EVAL_BARRIER_DEPENDS ∧ depends (.base t1) (.base t2) = some true ∧
+    enabled s t1 = true ∧ enabled s t2 = true ∧
     (exec (exec s t1) t2).bar 0 ≠ (exec (exec s t2) t1).bar 0 ∧
     enabled (exec (exec s t1) t2) w1 = true ∧ enabled (exec (exec s t2) t1) w1 = false := by decide
 
-/-- **Comm group: EVAL_COMM_SEND_TEST does not commute** (same shape for EVAL_COMM_RECV_TEST).  Actor 1 posted a receive
-(comm 7 on mailbox 0, no sender yet) and is about to test it; actor 2 is about to send on mailbox 0.  The arm answers
+/-- the arm EVAL_COMM_SEND_TEST (= EVAL_COMM_RECV_TEST up to the class of `t1`) as it was BEFORE the repair of
+`comm-test-vs-async-send-recv-unpaired`, kept as a literal for the regression statement below:
+  if (s->get_mailbox() != t->get_mailbox()) return false;
+  if ((s->aid_ != t->get_sender()) && (s->aid_ != t->get_receiver())) return false;
+  return t->get_comm() == s->get_comm(); -/
+def oldCommSendTestArm (t1 t2 : Base) : Option Bool :=
+  if t1.mbox != t2.mbox then some false
+  else if (t1.aid != t2.sender) && (t1.aid != t2.receiver) then some false
+  else some (t2.comm == t1.comm)
+
+/-- the repaired arm = the old one preceded by "a test whose comm has no sender yet depends on every send on its mailbox" -/
+theorem commSendTestArm_eq (t1 t2 : Base) :
+    evalAction .EVAL_COMM_SEND_TEST t1 t2 =
+      if t1.mbox != t2.mbox then some false else if !(t2.sender != -1) then some true else oldCommSendTestArm t1 t2 := by
+  simp only [evalAction, oldCommSendTestArm]
+  by_cases h : t1.mbox = t2.mbox <;> simp [h]
+
+theorem commRecvTestArm_eq (t1 t2 : Base) :
+    evalAction .EVAL_COMM_RECV_TEST t1 t2 =
+      if t1.mbox != t2.mbox then some false else if !(t2.receiver != -1) then some true else oldCommSendTestArm t1 t2 := by
+  simp only [evalAction, oldCommSendTestArm]
+  by_cases h : t1.mbox = t2.mbox <;> simp [h]
+
+/-- **Regression (repaired defect `comm-test-vs-async-send-recv-unpaired`).**  Actor 1 posted a receive (comm 7 on
+mailbox 0, no sender yet) and is about to test it; actor 2 is about to send on mailbox 0.  The OLD arm answered
 "independent" because actor 2 is neither the sender (-1) nor the receiver (1) recorded in the test, but the send pairs
-comm 7: the test fails if it goes first and succeeds if it goes second. -/
+comm 7: the test fails if it goes first and succeeds if it goes second.  The current `depends` answers "dependent". -/
 theorem comm_send_test_counterexample :
     let s : CommSem.CState := { sender := fun _ => -1, receiver := fun c => if c = 7 then 1 else -1,
                                 recvq := fun m => if m = 0 then [7] else [], ret := fun _ => 0, exists_ := fun _ => true }
     let t1 : Base := { kind := .COMM_TEST, aid := 1, comm := 7, sender := -1, receiver := 1, mbox := 0 }
     let t2 : Base := { kind := .COMM_ASYNC_SEND, aid := 2, comm := 0, mbox := 0 }
-    depends (.base t1) (.base t2) = some false ∧ CommSem.enabled s t1 = true ∧ CommSem.enabled s t2 = true ∧
+    oldCommSendTestArm t2 t1 = some false ∧                         -- the old arm (operands in table order: SEND, TEST)
+    lut .COMM_ASYNC_SEND .COMM_TEST = .EVAL_COMM_SEND_TEST ∧ depends (.base t1) (.base t2) = some true ∧
+    CommSem.enabled s t1 = true ∧ CommSem.enabled s t2 = true ∧
     (CommSem.exec (CommSem.exec s t1) t2).ret 1 = 0 ∧ (CommSem.exec (CommSem.exec s t2) t1).ret 1 = 1 := by decide
 
-/-- RANDOM row overrides EVAL_T1_ACTOR_CREATE: the first transition of a created actor, when it is a RANDOM, is declared
-independent of the ACTOR_CREATE that creates that actor, although the creation *enables* it.  This is not a violation of
-the C39 statement (which speaks about co-enabled pairs) but of the usual definition of independence; relevant to C38. -/
+/-- **Repaired cell COMM_ASYNC_SEND × COMM_TEST commutes** on the mailbox mini-model `CommSem` (receive queues only), for
+every state, every test and every send of different actors.  Hypotheses tying the test's label to the state, as the
+application reports it: the recorded sender/receiver are those of the tested comm (`hs`, `hr`); a pending receive has no
+sender yet, and the tested comm, if still pending, is pending in the mailbox recorded in the test (`hq`). -/
+theorem comm_send_test_commute (s : CommSem.CState) (t1 t2 : Base)
+    (h1 : t1.kind = .COMM_TEST) (h2 : t2.kind = .COMM_ASYNC_SEND) (ha : t1.aid ≠ t2.aid)
+    (hs : t1.sender = s.sender t1.comm) (_hr : t1.receiver = s.receiver t1.comm)
+    (hq : ∀ m c, c ∈ s.recvq m → s.sender c = -1 ∧ (c = t1.comm → m = t1.mbox))
+    (hd : depends (.base t1) (.base t2) = some false) :
+    CommSem.enabled (CommSem.exec s t1) t2 = CommSem.enabled s t2 ∧
+    CommSem.enabled (CommSem.exec s t2) t1 = CommSem.enabled s t1 ∧
+    (CommSem.exec (CommSem.exec s t1) t2).ret t1.aid = (CommSem.exec s t1).ret t1.aid ∧
+    (∀ a, (CommSem.exec (CommSem.exec s t1) t2).ret a = (CommSem.exec (CommSem.exec s t2) t1).ret a) ∧
+    (∀ c, (CommSem.exec (CommSem.exec s t1) t2).sender c = (CommSem.exec (CommSem.exec s t2) t1).sender c) ∧
+    (∀ m, (CommSem.exec (CommSem.exec s t1) t2).recvq m = (CommSem.exec (CommSem.exec s t2) t1).recvq m) := by
+  have hdep : evalAction .EVAL_COMM_SEND_TEST t2 t1 = some false := by
+    simpa [depends, Tr.aid, Tr.current, dependsBase, ha, h1, h2, Kind.toNat, lut, lutRow_COMM_ASYNC_SEND] using hd
+  rw [commSendTestArm_eq] at hdep
+  cases hqm : s.recvq t2.mbox with
+  | nil => simp [CommSem.exec, CommSem.enabled, h1, h2, hqm]
+  | cons c cs =>
+    have hc := hq t2.mbox c (by simp [hqm])
+    have hne : ¬ t1.comm = c := by
+      intro e
+      have hm : t2.mbox = t1.mbox := hc.2 e.symm
+      have hs' : t1.sender = -1 := by rw [hs, e]; exact hc.1
+      simp [hm, hs'] at hdep
+    simp [CommSem.exec, CommSem.enabled, CommSem.upd, h1, h2, hqm, hne]
+
+/-- **Regression (repaired defect `random-indep-of-own-actor-create` / `odpor-random-with-created-actor-spurious-crash`).**
+`rule_all(RANDOM, ALWAYS_INDEP)` used to overwrite the cell RANDOM × ACTOR_CREATE too (old cell value as a literal
+below), so the first transition of a created actor, when it is a RANDOM, was declared independent of the ACTOR_CREATE
+that *enables* it.  The cell is `EVAL_T2_ACTOR_CREATE` again: dependent iff the RANDOM is issued by the created actor. -/
 theorem random_create_enables_counterexample :
     let s : CommSem.CState := { sender := fun _ => -1, receiver := fun _ => -1, recvq := fun _ => [], ret := fun _ => 0,
                                 exists_ := fun a => a == 1 }
     let t1 : Base := { kind := .ACTOR_CREATE, aid := 1, child := 3 }
     let t2 : Base := { kind := .RANDOM, aid := 3, min := 0, max := 1 }
-    depends (.base t1) (.base t2) = some false ∧ CommSem.enabled s t2 = false ∧
-    CommSem.enabled (CommSem.exec s t1) t2 = true := by decide
+    let t3 : Base := { kind := .RANDOM, aid := 2, min := 0, max := 1 }
+    evalAction .ALWAYS_INDEP t2 t1 = some false ∧                   -- the old cell
+    lut .RANDOM .ACTOR_CREATE = .EVAL_T2_ACTOR_CREATE ∧
+    depends (.base t1) (.base t2) = some true ∧ depends (.base t1) (.base t3) = some false ∧
+    CommSem.enabled s t2 = false ∧ CommSem.enabled (CommSem.exec s t1) t2 = true := by decide
 
 -- non-vacuity of the commute theorems: a declared-independent, co-enabled LOCK/UNLOCK pair on a contended mutex
 example :
@@ -193,5 +282,34 @@ example :
     enabled s t1 = true ∧ enabled s t2 = true ∧ (s.sem 0).inv ∧ depends (.base t1) (.base t2) = some true := by
   refine ⟨by decide, by decide, ?_, by decide⟩
   simp [SemSt.inv]
+
+-- non-vacuity of `indep_commute_bar`: two granted waiters of one barrier (WAIT × WAIT), and locks of two barriers
+example :
+    let s : State := { mutex := fun _ => ⟨none, []⟩, sem := fun _ => ⟨0, [], []⟩,
+                       bar := fun _ => { expected := 2, waiting := [], granted := [1, 2] }, ret := fun _ => 0, dead := fun _ => false }
+    let t1 : Base := { kind := .BARRIER_WAIT, aid := 1, bar := 0 }
+    let t2 : Base := { kind := .BARRIER_WAIT, aid := 2, bar := 0 }
+    isBarKind t1.kind = true ∧ isBarKind t2.kind = true ∧ enabled s t1 = true ∧ enabled s t2 = true ∧
+    depends (.base t1) (.base t2) = some false ∧ (exec (exec s t1) t2).bar 0 = { expected := 2, waiting := [], granted := [] } := by
+  decide
+example : depends (.base { kind := .BARRIER_ASYNC_LOCK, aid := 1, bar := 0 })
+                  (.base { kind := .BARRIER_ASYNC_LOCK, aid := 2, bar := 1 }) = some false := by decide
+-- non-vacuity of `comm_send_test_commute`: the tested comm (7, mailbox 0) is already paired, another receive (8) is pending
+example :
+    let s : CommSem.CState := { sender := fun c => if c = 7 then 3 else -1, receiver := fun c => if c = 7 then 1 else if c = 8 then 4 else -1,
+                                recvq := fun m => if m = 0 then [8] else [], ret := fun _ => 0, exists_ := fun _ => true }
+    let t1 : Base := { kind := .COMM_TEST, aid := 1, comm := 7, sender := 3, receiver := 1, mbox := 0 }
+    let t2 : Base := { kind := .COMM_ASYNC_SEND, aid := 2, comm := 0, mbox := 0 }
+    t1.sender = s.sender t1.comm ∧ t1.receiver = s.receiver t1.comm ∧ depends (.base t1) (.base t2) = some false ∧
+    (CommSem.exec (CommSem.exec s t2) t1).ret 1 = 1 ∧ (CommSem.exec s t2).sender 8 = 2 := by decide
+example :     -- ... and that state satisfies the queue hypothesis `hq` of the theorem
+    let s : CommSem.CState := { sender := fun c => if c = 7 then 3 else -1, receiver := fun c => if c = 7 then 1 else if c = 8 then 4 else -1,
+                                recvq := fun m => if m = 0 then [8] else [], ret := fun _ => 0, exists_ := fun _ => true }
+    ∀ m c, c ∈ s.recvq m → s.sender c = -1 ∧ (c = 7 → m = 0) := by
+  intro s m c h
+  by_cases hm : m = 0
+  · have hc : c = 8 := by simpa [s, hm] using h
+    subst hc; simp [s]
+  · simp [s, hm] at h
 
 end SgVerif.C39
